@@ -47,9 +47,25 @@ Reconstruct(coeffs) ==
                       ELSE Go(i + 1, RAdd(acc, RMul(NF(coeffs[i].coeff), NF(coeffs[i].key))))
     IN Go(1, RConst(0, 1))
 
+\* Outside the rational fragment the normal form says nothing ("NA").  One class is decided
+\* syntactically all the same: a target in the EXPONENT of a power with a target-free base other
+\* than 0 and 1, standing alone or as the one such term / factor / numerator of an otherwise
+\* target-free sum / product / quotient, is not affine in that target (b**x is no polynomial in x).
+IsKI(e, n) == e.t = "Const" /\ IsNum(e.v) /\ e.v.n = n /\ e.v.d = 1
+RECURSIVE ExpSpoils(_, _)
+ExpSpoils(e, T) ==
+    CASE e.t = "Power" -> DependsOn(e.b, T) /\ ~DependsOn(e.a, T) /\ ~IsKI(e.a, 0) /\ ~IsKI(e.a, 1)
+      [] e.t \in {"Sum", "Product"} ->
+            /\ Cardinality({ i \in 1..Len(e.c) : ExpSpoils(e.c[i], T) }) = 1
+            /\ \A i \in 1..Len(e.c) : ExpSpoils(e.c[i], T) \/ ~DependsOn(e.c[i], T)
+            /\ (e.t = "Product" => \A i \in 1..Len(e.c) : ~IsKI(e.c[i], 0))
+      [] e.t = "Quotient" -> ExpSpoils(e.a, T) /\ ~DependsOn(e.b, T)
+      [] OTHER -> FALSE
+
 JudgeCoeffs(e, names, allTargets, res) ==
     LET T == IF allTargets THEN { i \in 1..NAtoms : TRUE } ELSE TargetAtoms(names)
-        aff == IsAffine(e, T)
+        aff0 == IsAffine(e, T)
+        aff == IF aff0 = "NA" /\ ExpSpoils(e, T) THEN "NO" ELSE aff0
     IN IF res.r = "unser" \/ aff = "NA" THEN "SKIP"
        ELSE IF res.r = "err" THEN
             (IF aff = "NO" THEN "OK"
